@@ -84,11 +84,11 @@ def gen(rng, i, tier):
         if via == "float":
             x = rng.choice([rng.uniform(-10, 10), rng.uniform(-1e4, 1e4), rng.randrange(-4800, 4800) / 48 + rng.choice([0, 1e-9, -1e-9, 1 / 96, 1 / 97])])
             n, d = x.as_integer_ratio()
-            return {"k": "round", "via": "float", "n": n, "d": d, "s": x.hex()}
+            return {"k": "round", "via": "float", "n": n, "d": d, "s": x.hex(), "sub": rng.random() < 0.2}
         places = rng.choice([1, 2, 3, 4, 6, 9])
         c = rng.randrange(-10 ** (places + rng.choice([0, 1, 3])), 10 ** (places + rng.choice([0, 1, 3])))
         s = dec_str([c < 0, abs(c), places])
-        return {"k": "round", "via": via, "n": c, "d": 10 ** places, "s": s}
+        return {"k": "round", "via": via, "n": c, "d": 10 ** places, "s": s, "sub": rng.random() < 0.2}
     if k == "exact":
         form = rng.choice(["int", "frac", "pair"])
         n = rng.randrange(-5000, 5000)
@@ -169,13 +169,27 @@ def impl(c):
     from simfile.timing import Beat, BeatValues, BeatValue, TimingData
     k = c["k"]
     if k == "round":
+        # "a float, a decimal or a decimal string": instances of subclasses are floats, decimals and strings too (the library's own SongTime is a float)
+        sub = bool(c.get("sub"))
+        if sub:
+            try:
+                from simfile.timing.engine import SongTime as FloatSub
+            except Exception:
+                class FloatSub(float):
+                    pass
+
+            class DecSub(Decimal):
+                pass
+
+            class StrSub(str):
+                pass
         if c["via"] == "float":
             x = float.fromhex(c["s"])
-            r = Beat(x)
+            r = Beat(FloatSub(x) if sub else x)
         elif c["via"] == "dec":
-            r = Beat(Decimal(c["s"])) if c["s"] is not None else Beat(Fraction(c["n"], c["d"])).round_to_tick()
+            r = Beat((DecSub if sub else Decimal)(c["s"])) if c["s"] is not None else Beat(Fraction(c["n"], c["d"])).round_to_tick()
         else:
-            r = Beat(c["s"])
+            r = Beat(StrSub(c["s"]) if sub else c["s"])
         r2 = Beat.from_str(c["s"]) if c["via"] == "str" else r
         return ["ok", type(r).__name__, fr(r), fr(r2)]
     if k == "seq":
